@@ -767,7 +767,10 @@ with builtin_call (n : nat) (fr : list frame) (b : builtin) (args : list value) 
               (fun rp s' => match rp with
                             | RVals vs => Ret vs s'
                             | RErr (VStr m) => if dv_wrap_noprefix (dv s') then Err (VStr m) s'
-                                               else Err (VStr (pos_prefix (frames_line fr) ++ m)) s'
+                                               else match fr with
+                                                    | (Some l, _) :: _ => Err (VStr (pos_prefix l ++ m)) s'
+                                                    | _ => Err (VStr m) s'   (* called directly by a host function: luaL_where of a C function is empty *)
+                                                    end
                             | RErr (VNum _) => if dv_wrap_noprefix (dv s') then Unsup 16 else Unsup 16
                             | RErr e => Err e s'
                             end)
